@@ -188,7 +188,17 @@ def main():
                 c['arg'][0] = text2j(text)
                 c['desc']['text'] = text
                 c['impl'] = (lambda text=text, ti=ti, di=di: call_impl(tp.segment, list(text), None, THR[ti], DEP[di]))
-                c['oracle'] = None
+                # irregular white space between the units (runs of spaces, tabs, a no-break space) does not count:
+                # same answer as for the text written with single spaces
+                if text:
+                    norm = [' '.join(l.split()) for l in text]
+
+                    def ws_oracle(out, norm=norm, ti=ti, di=di):
+                        ref = call_impl(tp.segment, list(norm), None, THR[ti], DEP[di])
+                        return None if out == ref else 'irregular white space changes the result: %r, with single spaces %r' % (out, ref)
+                    c['oracle'] = ws_oracle
+                else:
+                    c['oracle'] = None
                 cases.append(c)
     for c in cases:
         ck.count('family:' + c['desc']['family'])
